@@ -19,7 +19,7 @@ def report(np, x, how):
         codes = common.codes_of(x)
     lim = (1 <= w <= 52 and -60 <= f <= 60 and not cplx and not x.scaled)
     row = {'fmt': {'s': bool(x.signed), 'w': w, 'f': f}, 'codes': [wint(c) for c in codes[:40]], 'ni': int(x.n_int), 'dt': chars(x.dtype),
-           'cplx': cplx, 'lim': bool(lim), 'how': how,
+           'cplx': cplx, 'lim': bool(lim), 'how': how, 'nt': 'Q' if (x.config.dtype_notation == 'Q' and w - f >= 0) else ('fxp' if x.config.dtype_notation != 'Q' else 'skip'),
            'up': wdy(float(x.upper)) if lim else {'m': [0], 'e': 0}, 'lo': wdy(float(x.lower)) if lim else {'m': [0], 'e': 0},
            'pr': wdy(float(x.precision)) if lim else {'m': [0], 'e': 0}}
     return row
@@ -48,7 +48,8 @@ def run_program(fx, np, seed, steps, wmax=52):
         n = rng.choice([0, 0, 1, 3, 4])
         kw = dict(rounding=rng.choice(['trunc', 'fix', 'floor', 'ceil', 'around']), overflow=rng.choice(['saturate', 'wrap']),
                   op_sizing=rng.choice(['optimal', 'same', 'largest', 'smallest']), shifting=rng.choice(['expand', 'trunc', 'keep']),
-                  op_method=rng.choice(['raw', 'repr']), op_input_size=rng.choice(['same', 'best']))
+                  op_method=rng.choice(['raw', 'repr']), op_input_size=rng.choice(['same', 'best']), dtype_notation=rng.choice(['fxp', 'fxp', 'Q']),
+                  const_op_sizing=rng.choice(['same', 'optimal', 'largest', 'smallest']))
         if n == 0:
             return Fxp(value(s, w, f), s, w, f, **kw)
         if n == 4:
@@ -68,7 +69,10 @@ def run_program(fx, np, seed, steps, wmax=52):
         y = rng.choice(pool)
         op = rng.choice(['new', 'set', 'setitem', 'resize', 'resize-dtype', 'like', 'likem', 'from', 'add', 'sub', 'mul', 'div', 'floordiv', 'mod',
                          'const', 'neg', 'abs', 'lshift', 'rshift', 'invert', 'and', 'or', 'xor', 'getitem', 'sum', 'cumsum', 'prod', 'max', 'min',
-                         'dot', 'transpose', 'clip', 'sort', 'deepcopy', 'equal', 'npadd', 'npmul', 'fadd', 'out', 'complex'])
+                         'dot', 'transpose', 'clip', 'sort', 'deepcopy', 'equal', 'npadd', 'npmul', 'fadd', 'out', 'complex',
+                         'resize-norestore', 'resize-narrow-norestore', 'resize-nint', 'resize-sign', 'set-raw', 'set-index', 'iop', 'like-kw', 'template',
+                         'T', 'flatten', 'copy', 'fxp_like', 'from-bin', 'clip-wide', 'npsub', 'fsub', 'rconst', 'slice', 'setslice', 'conj',
+                         'recfg'])
         z = None
         try:
             if op == 'new':
@@ -140,6 +144,82 @@ def run_program(fx, np, seed, steps, wmax=52):
                 t = rng.choice(pool)
                 if t.shape == np.broadcast_shapes(x.shape, y.shape) and (t.signed or not (x.signed or y.signed)):
                     z = fx.mul(x, y, out=t)
+            elif op == 'resize-norestore':
+                s, w, f = fmt()
+                x.resize(s, w, f, restore_val=False)
+                z = x
+            elif op == 'resize-narrow-norestore' and x.n_word > 2:
+                x.resize(n_word=rng.randint(1 + int(x.signed), x.n_word - 1), restore_val=False)
+                z = x
+            elif op == 'resize-nint':
+                s, w, f = fmt()
+                if w - f - int(s) >= 0:
+                    rng.choice([lambda: x.resize(s, n_int=w - f - int(s), n_frac=f), lambda: x.resize(s, n_word=w, n_int=w - f - int(s)),
+                                lambda: x.resize(signed=s, n_frac=f, n_int=w - f - int(s))])()
+                    z = x
+            elif op == 'resize-sign':
+                x.resize(signed=not x.signed)
+                z = x
+            elif op == 'set-raw':
+                lo, hi = ((-(1 << (x.n_word - 1)), (1 << (x.n_word - 1)) - 1) if x.signed else (0, (1 << x.n_word) - 1))
+                c = [rng.choice([lo, hi, lo - 1, hi + 1, hi + (1 << x.n_word), 0, rng.randint(lo, hi)]) for _ in range(max(1, x.size))]
+                x.set_val(c[0] if x.ndim == 0 else np.array(c, dtype=object).reshape(x.shape), raw=True)
+                z = x
+            elif op == 'set-index' and x.ndim >= 1 and x.size:
+                x.set_val(value(x.signed, x.n_word, x.n_frac), index=rng.randrange(x.shape[0]))
+                z = x
+            elif op == 'iop':
+                z = x
+                k = rng.randrange(5)
+                if k == 0: z += y
+                elif k == 1: z -= y
+                elif k == 2: z *= y
+                elif k == 3: z >>= rng.randint(0, 3)
+                else: z <<= rng.randint(0, 3)
+            elif op == 'like-kw':
+                z = Fxp(value(y.signed, y.n_word, y.n_frac), like=y, signed=not y.signed)
+            elif op == 'template':
+                Fxp.template = y
+                try:
+                    z = Fxp(value(y.signed, y.n_word, y.n_frac))
+                finally:
+                    Fxp.template = None
+            elif op == 'T' and x.ndim == 2:
+                z = x.T
+            elif op == 'flatten' and x.ndim >= 1:
+                z = x.flatten()
+            elif op == 'copy':
+                z = x.copy()
+            elif op == 'fxp_like':
+                z = fx.fxp_like(x, value(x.signed, x.n_word, x.n_frac))
+            elif op == 'from-bin' and x.ndim == 0:
+                z = Fxp(None, like=x).from_bin(x.bin())
+            elif op == 'best-sizes' and x.ndim <= 1:
+                v = x.get_val()
+                x.set_best_sizes(v)
+                x.resize(x.signed, x.n_word, x.n_frac)
+                z = x
+            elif op == 'clip-wide' and x.ndim >= 1:
+                z = np.clip(x, -1000.5, 1000.25) if rng.random() < 0.5 else x.clip(-0.5, 0.75)
+            elif op == 'npsub':
+                z = np.subtract(x, y)
+            elif op == 'fsub':
+                z = fx.sub(x, y, out_like=rng.choice(pool))
+            elif op == 'rconst':
+                c = rng.choice([np.int8(3), np.float32(1.5), 2 ** 20, -7, 0.125])
+                z = rng.choice([lambda: c + x, lambda: c - x, lambda: c * x])()
+            elif op == 'slice' and x.ndim >= 1 and x.size >= 2:
+                z = x[::-1] if rng.random() < 0.5 else x[1:]
+            elif op == 'setslice' and x.ndim == 1 and x.size >= 2:
+                x[0:2] = [value(x.signed, x.n_word, x.n_frac) for _ in range(2)]
+                z = x
+            elif op == 'conj':
+                z = x.conj()
+            elif op == 'recfg':
+                x.config.overflow = rng.choice(['saturate', 'wrap'])
+                x.config.rounding = rng.choice(['trunc', 'fix', 'floor', 'ceil', 'around'])
+                x(value(x.signed, x.n_word, x.n_frac) if x.ndim == 0 else np.full(x.shape, value(x.signed, x.n_word, x.n_frac)))
+                z = x
             elif op == 'complex':
                 s, w, f = fmt()
                 z = Fxp(complex(value(s, w, f), value(s, w, f)), s, w, f)
@@ -155,7 +235,7 @@ def run_program(fx, np, seed, steps, wmax=52):
                         pool.pop(rng.randrange(len(pool)))
             except Exception as ex:
                 objs.append({'fmt': {'s': False, 'w': 0, 'f': 0}, 'codes': [[0, 1]], 'ni': 0, 'dt': chars('unreportable'), 'cplx': False, 'lim': False,
-                             'how': op + '.report-failed:' + type(ex).__name__, 'up': {'m': [0], 'e': 0}, 'lo': {'m': [0], 'e': 0}, 'pr': {'m': [0], 'e': 0}})
+                             'how': op + '.report-failed:' + type(ex).__name__, 'nt': 'fxp', 'up': {'m': [0], 'e': 0}, 'lo': {'m': [0], 'e': 0}, 'pr': {'m': [0], 'e': 0}})
         if step % 10 == 9:
             for o in pool:
                 try:
